@@ -118,12 +118,12 @@ public:
             return *this;
     }
 
-    void recreate(point_t const& dims, unsigned alignment=1)
+    void recreate(point_t const& dims, unsigned alignment=0)   // (0 like image::recreate: with 1 the same call was no no-op on an unchanged image)
     {
         variant2::visit(detail::recreate_image_fnobj(dims, alignment), *this);
     }
 
-    void recreate(x_coord_t width, y_coord_t height, unsigned alignment=1)
+    void recreate(x_coord_t width, y_coord_t height, unsigned alignment=0)
     {
         recreate({ width, height }, alignment);
     }
